@@ -6,8 +6,8 @@ CONSTANTS
   D = 0
   MaxEvents = 4
   MaxFails = 0
-  Extra = "none"
-  Backoff = FALSE
+  Extra = "start"
+  Backoff = TRUE
   Closed = TRUE
   ObserveCb = FALSE
   TrackQuiet = FALSE
